@@ -194,3 +194,144 @@ pub fn corpus() -> Vec<(String, Vec<u8>)> {
     v.sort();
     v
 }
+
+// ------------------------------------------------------------------------------------------------
+// Layer S: size thresholds. Small-scope enumeration never produces a 130-byte name or a 1 025-byte
+// comment; code with a size-dependent path (a preallocated buffer, a fast path for short inputs, a
+// counter that wraps) is only reached by stretching. Every template has one or two *slots*; slot k
+// is `unit_k` repeated `n_k` times and may occur several times in the template (same count). The
+// counts range over a dense prefix 0..=dense plus every power of two 2^j (and round decimal sizes)
+// with its two neighbours; with two slots one count ranges over the full list and the other over
+// the reduced list (both ways).
+
+pub enum Seg {
+    L(&'static [u8]),
+    /// slot index (0 or 1), unit
+    S(u8, &'static [u8]),
+}
+use Seg::*;
+
+pub struct Tmpl {
+    pub name: &'static str,
+    pub segs: &'static [Seg],
+}
+
+pub const STRETCH_READER: &[Tmpl] = &[
+    Tmpl { name: "name x text", segs: &[L(b"<"), S(0, b"a"), L(b">"), S(1, b"x"), L(b"</"), S(0, b"a"), L(b">")] },
+    Tmpl { name: "non-ascii name x blanks in end tag", segs: &[L(b"<"), S(0, b"\xC3\xA9"), L(b">"), L(b"</"), S(0, b"\xC3\xA9"), S(1, b" "), L(b">")] },
+    Tmpl { name: "attr key x value", segs: &[L(b"<a "), S(0, b"k"), L(b"=\""), S(1, b"v"), L(b"\"/>t")] },
+    Tmpl { name: "quoted > runs", segs: &[L(b"<a k=\""), S(0, b">"), L(b"\" j='"), S(1, b"\">"), L(b"'>t</a>")] },
+    Tmpl { name: "many attributes x blanks before />", segs: &[L(b"<a"), S(0, b" k='v'"), S(1, b" "), L(b"/>")] },
+    Tmpl { name: "comment body x following text", segs: &[L(b"<!--"), S(0, b"x"), L(b"-->"), S(1, b"y"), L(b"<b/>")] },
+    Tmpl { name: "comment of single hyphens", segs: &[L(b"<!--"), S(0, b"- "), L(b"-->"), S(1, b"-"), L(b">")] },
+    Tmpl { name: "comment hyphen run then >", segs: &[L(b"<a/><!--"), S(0, b"-"), L(b">"), S(1, b"x"), L(b"-->z")] },
+    Tmpl { name: "cdata ] run x body", segs: &[L(b"<![CDATA["), S(0, b"]"), L(b">"), S(1, b"x"), L(b"]]>t")] },
+    Tmpl { name: "cdata body x look-alike ends", segs: &[L(b"<![CDATA["), S(0, b"x"), S(1, b"]>]"), L(b"]]><a>")] },
+    Tmpl { name: "pi target x ? run", segs: &[L(b"<?"), S(0, b"p"), L(b" "), S(1, b"?"), L(b">t")] },
+    Tmpl { name: "pi body of ?x", segs: &[L(b"<?p "), S(0, b"?x"), L(b"?>"), S(1, b"<!---->")] },
+    Tmpl { name: "declaration with many pseudo-attributes", segs: &[L(b"<?xml"), S(0, b" version='1.0'"), S(1, b" "), L(b"?><r/>")] },
+    Tmpl { name: "doctype < x > balance", segs: &[L(b"<!DOCTYPE r "), S(0, b"<"), S(1, b">"), L(b"><r/>")] },
+    Tmpl { name: "doctype internal subset", segs: &[L(b"<!DOCTYPE r ["), S(0, b"<!ENTITY e \"v>\">"), L(b"]"), S(1, b" "), L(b"><r/>")] },
+    Tmpl { name: "doctype keyword blanks", segs: &[L(b"<!DOCTYPE"), S(0, b" "), S(1, b"n"), L(b">")] },
+    Tmpl { name: "blanks around text", segs: &[L(b"<a>"), S(0, b" "), L(b"x"), S(1, b"\n\t"), L(b"</a>")] },
+    Tmpl { name: "blank-only text x leading blanks", segs: &[S(0, b"\r\n"), L(b"<a>"), S(1, b" "), L(b"</a>")] },
+    Tmpl { name: "nesting: opens x closes", segs: &[S(0, b"<a>"), S(1, b"</a>")] },
+    Tmpl { name: "nesting: long names", segs: &[S(0, b"<abcdefgh>"), L(b"x"), S(1, b"</abcdefgh>")] },
+    Tmpl { name: "siblings: empty x text+empty", segs: &[L(b"<r>"), S(0, b"<a/>"), S(1, b"x<b/>"), L(b"</r>")] },
+    Tmpl { name: "entities in text and value", segs: &[L(b"<a k='"), S(0, b"&amp;"), L(b"'>"), S(1, b"&#x3C;"), L(b"</a>")] },
+    Tmpl { name: "end tag name x blanks", segs: &[L(b"<"), S(0, b"n"), L(b">t</"), S(0, b"n"), S(1, b"\t"), L(b">")] },
+    Tmpl { name: "unterminated quoted value", segs: &[L(b"<a>t</a><a k=\""), S(0, b"x>"), S(1, b"'")] },
+    Tmpl { name: "unterminated comment", segs: &[L(b"t<!--"), S(0, b"x"), S(1, b"-")] },
+    Tmpl { name: "unterminated cdata", segs: &[L(b"<![CDATA["), S(0, b"x"), S(1, b"]")] },
+    Tmpl { name: "unterminated pi", segs: &[L(b"<?"), S(0, b"x"), S(1, b"?")] },
+    Tmpl { name: "unterminated doctype", segs: &[L(b"<!DOCTYPE"), S(0, b" <"), S(1, b"> ")] },
+    Tmpl { name: "bom then blanks then decl", segs: &[L(b"\xEF\xBB\xBF"), S(0, b" "), L(b"<?xml version='1.0'?>"), S(1, b"x")] },
+];
+
+pub fn size_list(dense: u32, max_pow: u32) -> Vec<u32> {
+    let mut v: Vec<u32> = (0..=dense).collect();
+    for j in 3..=max_pow {
+        let p = 1u32 << j;
+        v.extend_from_slice(&[p - 2, p - 1, p, p + 1, p + 2]);
+    }
+    for d in [10u32, 100, 1000, 10_000, 100_000] {
+        if d <= (1 << max_pow) {
+            v.extend_from_slice(&[d - 1, d, d + 1]);
+        }
+    }
+    v.sort();
+    v.dedup();
+    v
+}
+
+pub fn build_tmpl(t: &Tmpl, n: [u32; 2], out: &mut Vec<u8>) {
+    build_tmpl_marks(t, n, out, None)
+}
+
+/// `marks` receives the offset behind every segment (the places where the byte pattern changes).
+pub fn build_tmpl_marks(t: &Tmpl, n: [u32; 2], out: &mut Vec<u8>, mut marks: Option<&mut Vec<usize>>) {
+    out.clear();
+    for s in t.segs {
+        match s {
+            L(b) => out.extend_from_slice(b),
+            S(k, u) => {
+                for _ in 0..n[*k as usize] {
+                    out.extend_from_slice(u);
+                }
+            }
+        }
+        if let Some(m) = marks.as_deref_mut() {
+            m.push(out.len());
+        }
+    }
+}
+
+/// Layer S over `tmpls`: full x reduced size lists, both ways.
+pub struct Stretch {
+    pub tmpls: &'static [Tmpl],
+    pub full: Vec<u32>,
+    pub red: Vec<u32>,
+    pub desc: Value,
+}
+
+impl Stretch {
+    pub fn new(tmpls: &'static [Tmpl], dense: u32, max_pow: u32, red_pow: u32) -> Stretch {
+        let full = size_list(dense, max_pow);
+        let red = size_list(3, red_pow);
+        let desc = json!({
+            "kind": "size thresholds: templates with two repeat slots; one count over `sizes_full`, the other over `sizes_reduced`, both ways",
+            "templates": tmpls.iter().map(|t| t.name).collect::<Vec<_>>(),
+            "sizes_full": format!("0..={} and 2^j-2..2^j+2 for j<={} and 10^k-1..10^k+1 ({} sizes)", dense, max_pow, full.len()),
+            "sizes_reduced": format!("0..=3 and 2^j-2..2^j+2 for j<={} ({} sizes)", red_pow, red.len()),
+        });
+        Stretch { tmpls, full, red, desc }
+    }
+    pub fn total(&self) -> u64 {
+        self.tmpls.len() as u64 * self.full.len() as u64 * self.red.len() as u64 * 2
+    }
+    pub fn case(&self, mut i: u64) -> (usize, [u32; 2]) {
+        let nr = self.red.len() as u64;
+        let nf = self.full.len() as u64;
+        let way = i % 2;
+        i /= 2;
+        let r = self.red[(i % nr) as usize];
+        i /= nr;
+        let f = self.full[(i % nf) as usize];
+        i /= nf;
+        (i as usize, if way == 0 { [f, r] } else { [r, f] })
+    }
+    pub fn get(&self, i: u64, out: &mut Vec<u8>, marks: Option<&mut Vec<usize>>) {
+        let (t, n) = self.case(i);
+        build_tmpl_marks(&self.tmpls[t], n, out, marks);
+    }
+}
+
+pub fn stretch(name: &str, tmpls: &'static [Tmpl], dense: u32, max_pow: u32, red_pow: u32) -> Space {
+    let st = Stretch::new(tmpls, dense, max_pow, red_pow);
+    Space {
+        name: name.to_string(),
+        desc: st.desc.clone(),
+        total: st.total(),
+        gen: Box::new(move |i, out| st.get(i, out, None)),
+    }
+}
